@@ -11,9 +11,12 @@ fails; the rotation fails; the unlink of the k-th obsolete log fails), `reopen`
 (NewTendermintWALStore), `crash c i mask alt` (the process dies while operation `c` is at its
 `i`-th durable state; the unlinks chosen by `mask`, not yet made durable by a directory sync, are
 undone; `alt` says how far watermark renames that no directory sync has made durable are undone).
-`Sys.init.run ops` is the state after the history: the store, the directory, and two ghost lists
+`Sys.init.run ops` is the state after the history: the store, the directory, and three ghost lists
 of API calls — `acked`: the calls followed by a flush that committed (with or without an error
-reported afterwards) or brought back by a recovery, `calls`: the calls since. `images c` are all
+reported afterwards) or brought back by a recovery, `calls`: the calls since, `limbo`: empty, except
+after a flush whose fsync reported failure with the whole batch on disk and whose tail repair failed
+too (`appendFullNoRepair`): then the calls of that batch — the store is blocked (`repairRequired`) and
+shows only `acked`; the next restart finds `acked ++ limbo`. `images c` are all
 crash images of the operation `c` started now, each with the flag "the batch in flight is
 completely on disk". `recover img` is LoadAllEntries after NewTendermintWALStore on that
 directory. `LoadSpec out A`: `out` is exactly what the property allows after the acknowledged calls
@@ -28,13 +31,14 @@ What the statements do NOT cover (assumptions, see checks/c14.json):
   invalid tail is Pebble's framing, tested by the harness, not proved.
 * Order: `LoadAllEntries` sorts by height, so "in their original order" can only mean call order
   within a height; that is what `LoadSpec` says.
-* The caller does not write through the pointers of an entry after `SetWALEntry`
-  (`aliasing_breaks_exactness_before_fix`).
+* A caller that writes through the pointers of an entry after `SetWALEntry` no longer reaches the
+  buffered record (juno b8b5501; regression witness `aliasing_breaks_exactness_before_b8b5501`).
 * Failure points that are not in `Fault` (hence `…_partial` below): the tail repair failing
   after a failed *rotation*; the directory sync failing inside `manager.Create`; `encodeBatch`
-  returning an error (impossible for `starknet.Value`, a `[4]uint64`); `manager.Close()` failing
-  inside `Close` (`wal.close()` failing is modelled: `closeWriter`, `closeWriterNoRepair`);
-  `manager.Obsolete` returning an error (it never does in Pebble's standalone manager).
+  returning an error (impossible for `starknet.Value`, a `[4]uint64`); `manager.Obsolete` returning
+  an error (it never does in Pebble's standalone manager). (Modelled: `wal.close()` failing —
+  `closeWriter`, `closeWriterNoRepair`; `manager.Close()` failing inside `Close` — `closeManager`;
+  a reported-failed fsync with the batch on disk followed by a failed repair — `appendFullNoRepair`.)
 -/
 namespace Juno.C14.Props
 open Juno.C14
@@ -46,12 +50,14 @@ append, the watermark write, the rotation and the removal of obsolete logs pass 
 any subset of not yet durable unlinks and renames undone): reopening succeeds, and
 LoadAllEntries yields exactly the acknowledged history — or, when the batch in flight had
 reached the disk completely, the acknowledged history followed by that whole batch. Never an
-error, never a partial batch, never a pruned height, never a lost entry. -/
+error, never a partial batch, never a pruned height, never a lost entry. (`limbo` is empty unless
+the double failure `appendFullNoRepair` has blocked the store, see the header and
+`failed_flush_all_or_nothing_partial`; then it is one whole batch.) -/
 theorem recover_exact (ops : List Op) (c : COp) (img : Disk) (infl : Bool)
     (h : (img, infl) ∈ (Sys.init.run ops).images c) :
     ∃ out, recover img = .ok out ∧
       LoadSpec out (if infl = true then (Sys.init.run ops).acked ++ (Sys.init.run ops).calls
-                    else (Sys.init.run ops).acked) := by
+                    else (Sys.init.run ops).acked ++ (Sys.init.run ops).limbo) := by
   obtain ⟨b, mask, alt, hb, rfl⟩ := mem_images h
   exact ((inv_run ops).bases c (b, infl) hb).image_good mask alt
 
@@ -81,6 +87,10 @@ In both cases: the running store shows exactly that history; every crash image f
 recovers exactly that history (never a part of the batch); and unless the tail repair failed too
 (`repairRequired`, the store then refuses new writers on purpose until it is restarted, see
 `restart_clears_repair_required`) the very next flush succeeds.
+The one case in which a flush reports failure and the batch is durable all the same
+(`appendFullNoRepair`: fsync reports an error after the data reached the disk, then the truncation
+that would cut the batch off fails): the store is blocked, and what a restart finds is the
+acknowledged history followed by `limbo`, which is the WHOLE batch (`sys.calls`) — never a part.
 `_partial`: the failure points listed in the header are not in `Fault`. -/
 theorem failed_flush_all_or_nothing_partial (ops : List Op) (ft : Fault)
     (ha : (Sys.init.run ops).alive = true) (hc : (Sys.init.run ops).st.closed = false)
@@ -93,8 +103,10 @@ theorem failed_flush_all_or_nothing_partial (ops : List Op) (ft : Fault)
     (committed = true → sys'.st.pending = [] ∧ sys'.calls = []) ∧
     (committed = false → sys'.st.pending = sys.st.pending ∧ sys'.calls = sys.calls ∧ sys'.removed = sys.removed) ∧
     LoadSpec sys'.st.load sys'.acked ∧
-    (∀ img infl, (img, infl) ∈ sys'.images .idle → ∃ out, recover img = .ok out ∧ LoadSpec out sys'.acked) ∧
-    (sys'.st.repairRequired = false → (sys'.step (.flush .none)).2 = .ok) := by
+    (∀ img infl, (img, infl) ∈ sys'.images .idle →
+      ∃ out, recover img = .ok out ∧ LoadSpec out (sys'.acked ++ sys'.limbo)) ∧
+    (sys'.limbo = sys.limbo ∨ sys'.limbo = sys.calls) ∧
+    (sys'.st.repairRequired = false → sys'.limbo = [] ∧ (sys'.step (.flush .none)).2 = .ok) := by
   intro sys sys' committed
   have ha' : sys.alive = true := ha
   have hc' : sys.st.closed = false := hc
@@ -121,7 +133,7 @@ theorem failed_flush_all_or_nothing_partial (ops : List Op) (ft : Fault)
     show (sys.step (.flush ft)).1.removed = _
     simp only [Sys.step, ha', Bool.not_true, Bool.false_eq_true, ↓reduceIte]
   have hcl : sys'.st.closed = false := by rw [e4, flush_closed_same]; exact hc'
-  refine ⟨e2, ?_, ?_, ?_, ?_, ?_⟩
+  refine ⟨e2, ?_, ?_, ?_, ?_, ?_, ?_⟩
   · intro hcm
     refine ⟨?_, by rw [e3]; simp [hcm]⟩
     rw [e4]
@@ -147,10 +159,21 @@ theorem failed_flush_all_or_nothing_partial (ops : List Op) (ft : Fault)
     subst hfl
     rw [← hstep] at r2
     exact ⟨out, r1, by simpa using r2⟩
+  · show (sys.step (.flush ft)).1.limbo = sys.limbo ∨ (sys.step (.flush ft)).1.limbo = sys.calls
+    simp only [Sys.step, ha', Bool.not_true, Bool.false_eq_true, ↓reduceIte]
+    split
+    · exact Or.inr rfl
+    · exact Or.inl rfl
   · intro hrr
-    show (sys'.step (.flush .none)).2 = .ok
-    simp only [Sys.step, e5, Bool.not_true, Bool.false_eq_true, ↓reduceIte]
-    exact flush_none_ok _ _ hcl hrr
+    refine ⟨?_, ?_⟩
+    · have iv : Inv sys' := by rw [hstep]; exact inv_run _
+      by_cases hl : sys'.limbo = []
+      · exact hl
+      · have := (iv.lim hl e5 hcl).1
+        rw [hrr] at this; cases this
+    · show (sys'.step (.flush .none)).2 = .ok
+      simp only [Sys.step, e5, Bool.not_true, Bool.false_eq_true, ↓reduceIte]
+      exact flush_none_ok _ _ hcl hrr
 
 /-- **A restart clears a blocked writer.** Whatever the history (in particular after a failed
 tail repair has set `repairRequired`), once the process has died and `NewTendermintWALStore` has run
@@ -170,7 +193,8 @@ theorem restart_clears_repair_required (ops : List Op) (mask : List Bool) (alt :
     simp [Sys.step, Sys.bases]
   obtain ⟨s', d', ho, _, _, _⟩ := open_inv icr.d
   obtain ⟨f1, f2, _⟩ := openStore_fresh _ _ _ ho
-  have hre : (c.step .reopen).1 = { c with alive := true, st := s', disk := d', calls := [] } := by
+  have hre : (c.step .reopen).1 =
+      { c with alive := true, st := s', disk := d', calls := [], acked := c.acked ++ c.limbo, limbo := [] } := by
     simp only [Sys.step, hdead, Bool.false_and, Bool.false_eq_true, ↓reduceIte, ho]
   rw [hrun, hre]
   refine ⟨rfl, f1, f2, ?_⟩
@@ -187,13 +211,15 @@ theorem gc_safe (ops : List Op) (F : LogFile) (hF : F ∈ (Sys.init.run ops).rem
 /-- … and the reason, on every reachable state of a running store: a log numbered below the bound
 `cleanupObsoleteWALs` computes (`minLive`: the next log number, lowered to the smallest log some
 live height references) holds no record above the prune watermark — a log that holds an entry of
-an unpruned height is referenced by that height (exact reference counts). -/
+an unpruned height is referenced by that height (exact reference counts). (For a store whose writer
+is not blocked: a blocked store refuses every flush, so it never computes the bound.) -/
 theorem gc_bound_spares_live_logs (ops : List Op) (ha : (Sys.init.run ops).alive = true)
-    (hc : (Sys.init.run ops).st.closed = false) (F : LogFile) (hF : F ∈ (Sys.init.run ops).disk.files)
+    (hc : (Sys.init.run ops).st.closed = false) (hb : (Sys.init.run ops).st.repairRequired = false)
+    (F : LogFile) (hF : F ∈ (Sys.init.run ops).disk.files)
     (hn : F.num < (Sys.init.run ops).st.minLive) (r : Rec) (hr : r ∈ recsOfFile F) :
     r.height ≤ (Sys.init.run ops).st.idx.pruned := by
   have i := (inv_run ops).s ha hc
-  exact dead_is_low _ _ i.rwf i.cov F.num hn r (mem_pairsOf hF hr)
+  exact dead_is_low _ _ i.rwf (i.cov hb) F.num hn r (mem_pairsOf hF hr)
 
 /-- **The store's prune watermark never goes back** — across any continuation of any history,
 crashes and restarts included: `prunedUpToHeight` of the running store after `ops ++ more` is at
@@ -224,15 +250,18 @@ height ≥ 1 — which is every history juno's consensus can produce (its first 
 `chainHeight + 1`, consensus/consensus.go). -/
 theorem recover_exact_ideal_partial (ops : List Op) (c : COp) (img : Disk) (infl : Bool)
     (h : (img, infl) ∈ (Sys.init.run ops).images c)
-    (hp : HeightsPositive ((Sys.init.run ops).acked ++ (Sys.init.run ops).calls)) :
+    (hp : HeightsPositive ((Sys.init.run ops).acked ++ (Sys.init.run ops).calls ++ (Sys.init.run ops).limbo)) :
     ∃ out, recover img = .ok out ∧
       LoadSpecIdeal out (if infl = true then (Sys.init.run ops).acked ++ (Sys.init.run ops).calls
-                         else (Sys.init.run ops).acked) := by
+                         else (Sys.init.run ops).acked ++ (Sys.init.run ops).limbo) := by
   obtain ⟨out, r1, r2⟩ := recover_exact ops c img infl h
   refine ⟨out, r1, r2.ideal ?_⟩
   split
-  · exact hp
   · exact fun h' e hm => hp h' e (List.mem_append_left _ hm)
+  · intro h' e hm
+    rcases List.mem_append.mp hm with hm | hm
+    · exact hp h' e (List.mem_append_left _ (List.mem_append_left _ hm))
+    · exact hp h' e (List.mem_append_right _ hm)
 
 /-- The negation witness: `SetWALEntry` of height 0, `Flush` (returns nil), restart — the entry is
 gone although no prune was ever requested. (Not reachable from juno's consensus.) -/
@@ -246,21 +275,25 @@ theorem height_zero_entry_lost :
   have := h.exact 0
   simp [prunedIdeal, entriesOf, AMap.get?] at this
 
-/-! ### Aliasing (record.go `setEntry`)
+/-! ### Aliasing (record.go `setEntry`) — fixed in juno b8b5501
 
-Full statement, FALSE for juno before proposed-fixes/C14-setentry-deep-copy.diff: `recover_exact`
-also when the caller modifies, between `SetWALEntry` and `Flush`, the value an entry points to. -/
+`setEntry` used to share `Proposal.Value` / `Vote.ID` with the caller until Flush encoded the batch.
+The model follows the repaired code (`Store.poke` changes nothing); what follows is the regression
+witness for the code before the fix. The harness oracle `entry-mutated-after-set-is-persisted`
+(no longer a known finding) reports the defect again should it come back. -/
 
-/-- The negation witness (model of the code before the fix, `aliasFixed = false`): the caller
-hands over an entry with payload 10, writes payload 11 through the pointer it still holds, then
-flushes: payload 11 is what a restart finds, for an acknowledged history that only ever contained
-payload 10. `recover_exact` is the `_partial` side: it holds for callers that do not do this. -/
-theorem aliasing_breaks_exactness_before_fix :
+/-- REGRESSION WITNESS, code before b8b5501 (`Store.pokeBefore_b8b5501`): the caller hands over an entry
+with payload 10, writes payload 11 through the pointer it still holds, then flushes: payload 11 is what a
+restart finds, for an acknowledged history that only ever contained payload 10 — whereas on the current
+code (`Store.poke`) the same sequence recovers payload 10. -/
+theorem aliasing_breaks_exactness_before_b8b5501 :
     let s0 := (Sys.init.run [.reopen, .set 1 10])
-    let s1 := { s0 with st := s0.st.poke 0 11 }
-    (s1.step (.flush .none)).2 = .ok ∧ (s1.step (.flush .none)).1.acked = [.entry 1 10] ∧
-    (recover (s1.step (.flush .none)).1.disk).toOption = some [(1, [11])] ∧ ¬ LoadSpec [(1, [11])] [.entry 1 10] := by
-  refine ⟨by decide, by decide, by decide, ?_⟩
+    let old := { s0 with st := s0.st.pokeBefore_b8b5501 0 11 }
+    let cur := { s0 with st := s0.st.poke 0 11 }
+    (old.step (.flush .none)).2 = .ok ∧ (old.step (.flush .none)).1.acked = [.entry 1 10] ∧
+    (recover (old.step (.flush .none)).1.disk).toOption = some [(1, [11])] ∧ ¬ LoadSpec [(1, [11])] [.entry 1 10] ∧
+    (recover (cur.step (.flush .none)).1.disk).toOption = some [(1, [10])] := by
+  refine ⟨by decide, by decide, by decide, ?_, by decide⟩
   intro h
   have := h.exact 1
   simp [maxPrune, entriesOf, AMap.get?] at this
@@ -314,6 +347,22 @@ example : (Sys.init.run demo).alive = true ∧ (Sys.init.run demo).st.closed = f
     ((Sys.init.run demo).step (.flush .appendNoRepair)).2 = .errNotCommitted ∧
     ((Sys.init.run demo).step (.flush .appendNoRepair)).1.st.repairRequired = true := by decide
 example : ((Sys.init.run [.reopen, .set 1 10]).step (.flush .create)).2 = .errNotCommitted := by decide
+-- the double failure that leaves a reported-failed batch on disk: the store is blocked and shows the
+-- acknowledged history only; a later flush is refused; the restart brings the WHOLE batch back
+example : ((Sys.init.run demo).step (.flush .appendFullNoRepair)).2 = .errNotCommitted ∧
+    ((Sys.init.run demo).step (.flush .appendFullNoRepair)).1.st.repairRequired = true ∧
+    ((Sys.init.run demo).step (.flush .appendFullNoRepair)).1.limbo = [.entry 3 14] ∧
+    ((Sys.init.run demo).step (.flush .appendFullNoRepair)).1.st.load = [(2, [11, 12]), (3, [13])] := by decide
+example : (Sys.init.run (demo ++ [.flush .appendFullNoRepair, .set 4 15, .flush .none])).limbo = [.entry 3 14] ∧
+    (Sys.init.run (demo ++ [.flush .appendFullNoRepair, .set 4 15, .flush .none, .close .none, .reopen])).st.load =
+      [(2, [11, 12]), (3, [13, 14])] ∧
+    (Sys.init.run (demo ++ [.flush .appendFullNoRepair, .set 4 15, .flush .none, .close .none, .reopen])).acked =
+      [.entry 1 10, .entry 2 11, .prune 1, .entry 2 12, .entry 3 13, .entry 3 14] := by decide
+-- `manager.Close()` failing inside `Close`: the flush inside has committed, only the error differs
+example : ((Sys.init.run demo).step (.close .closeManager)).2 = .errCommitted ∧
+    ((Sys.init.run demo).step (.close .closeManager)).1.acked =
+      [.entry 1 10, .entry 2 11, .prune 1, .entry 2 12, .entry 3 13, .entry 3 14] ∧
+    ((Sys.init.run demo).step (.close .closeManager)).1.st.closed = true := by decide
 -- Pebble's reader skips a batch whose sequence number does not increase: the model represents it
 example : ({ num := 1, batches := [[.entry 1 10], [.entry 1 11]], seqs := [1, 1] } : LogFile).visible = [[.entry 1 10]] := by
   decide
